@@ -380,39 +380,7 @@ func propC03(c *Ctx, r *Report) {
 	ruleValidateBounds(c, r, "C03-R7/validate-bounds")
 	// applied completely: a PEG request, whose output recordBatch defers, is either rejected before anything is
 	// written (PegNet 2.0 on) or handed to the settlement that credits it (before) - at every height class
-	r.rule("C03-R9/peg-request-complete", 1, "a batch with a deferred PEG output is either collected for settlement or rejected up front")
-	{
-		e := newEraCtx(c, r)
-		hold := c.fn("node.Pegnetd.ApplyTransactionBatchesInHolding")
-		limitAct := e.a.get("PegnetConversionLimitActivation")
-		acc := newTableAcc()
-		var bad []string
-		n := 0
-		for _, h := range e.reps {
-			if h < limitAct {
-				continue // the PEG output is credited immediately in recordBatch (C16 era table)
-			}
-			n++
-			sc := &Scenario{Params: map[string]AVal{"type:uint32": hconst(h)},
-				Calls: map[string]AVal{"HasPEGRequest": cBool(true), "isDone": cBool(false), "applyTransactionBatch": nilVal, "IsReplayTransaction": {K: ATuple, Tup: []AVal{cBool(false), nilVal}},
-					"SelectBankEntry": {K: ATuple, Tup: []AVal{top, nilVal}}},
-				MaxDepth: 1, AllErrorsNil: true, NoInline: map[string]bool{"recordPegnetRequests": true, "GetPegNetRateAverages": true}}
-			t, _ := acc.run(c, r, hold, sc)
-			collected := false
-			for _, lc := range t.Calls {
-				if lc.Callee == "builtin.append" && lc.Depth == 0 {
-					collected = true
-				}
-			}
-			gated := t.Live("ValidatePegTx")
-			executed := t.Live("applyTransactionBatch")
-			if executed && !collected && !gated && len(bad) < 5 {
-				bad = append(bad, fmt.Sprintf("h=%d: the batch is executed (input debited, PEG output deferred) but neither collected for the PEG settlement nor checked by ValidatePegTx", h))
-			}
-		}
-		acc.report(c, r, "C03-R9/peg-request-complete", hold)
-		r.check(len(bad) == 0, "C03-R9/peg-request-complete", "ApplyTransactionBatchesInHolding, batches with a PEG request", c.pos(hold.Pos()), fmt.Sprintf("%d height classes", n), strings.Join(bad, "; ")+": only the debit half of the conversion is applied")
-	}
+	rulePegRequestComplete(c, r, "C03-R9/peg-request-complete")
 	// a rejected batch leaves every balance as it was: it is not handed to the PEG settlement (shared with C16)
 	ruleRejectedNotCollected(c, r, newEraCtx(c, r), "C03-R11/rejected-not-collected")
 	// an accepted batch is applied completely: its deferred PEG output reaches the pooled settlement (shared with C16)
@@ -703,5 +671,43 @@ func ruleValidateBounds(c *Ctx, r *Report, rule string) {
 			}
 			r.check(hasNil == (rem == 0), rule, fmt.Sprintf("transfer with remainder %d", rem), c.pos(tv.Pos()), map[bool]string{true: "accepted", false: "rejected"}[rem == 0], fmt.Sprintf("results %v", errs))
 		}
+	}
+}
+
+// rulePegRequestComplete: per height class a batch with a deferred PEG output is either collected for the settlement or
+// rejected before anything is written (shared by C03 and C04).
+func rulePegRequestComplete(c *Ctx, r *Report, rule string) {
+	r.rule(rule, 1, "a batch with a deferred PEG output is either collected for settlement or rejected up front")
+	{
+		e := newEraCtx(c, r)
+		hold := c.fn("node.Pegnetd.ApplyTransactionBatchesInHolding")
+		limitAct := e.a.get("PegnetConversionLimitActivation")
+		acc := newTableAcc()
+		var bad []string
+		n := 0
+		for _, h := range e.reps {
+			if h < limitAct {
+				continue // the PEG output is credited immediately in recordBatch (C16 era table)
+			}
+			n++
+			sc := &Scenario{Params: map[string]AVal{"type:uint32": hconst(h)},
+				Calls: map[string]AVal{"HasPEGRequest": cBool(true), "isDone": cBool(false), "applyTransactionBatch": nilVal, "IsReplayTransaction": {K: ATuple, Tup: []AVal{cBool(false), nilVal}},
+					"SelectBankEntry": {K: ATuple, Tup: []AVal{top, nilVal}}},
+				MaxDepth: 1, AllErrorsNil: true, NoInline: map[string]bool{"recordPegnetRequests": true, "GetPegNetRateAverages": true}}
+			t, _ := acc.run(c, r, hold, sc)
+			collected := false
+			for _, lc := range t.Calls {
+				if lc.Callee == "builtin.append" && lc.Depth == 0 {
+					collected = true
+				}
+			}
+			gated := t.Live("ValidatePegTx")
+			executed := t.Live("applyTransactionBatch")
+			if executed && !collected && !gated && len(bad) < 5 {
+				bad = append(bad, fmt.Sprintf("h=%d: the batch is executed (input debited, PEG output deferred) but neither collected for the PEG settlement nor checked by ValidatePegTx", h))
+			}
+		}
+		acc.report(c, r, rule, hold)
+		r.check(len(bad) == 0, rule, "ApplyTransactionBatchesInHolding, batches with a PEG request", c.pos(hold.Pos()), fmt.Sprintf("%d height classes", n), strings.Join(bad, "; ")+": only the debit half of the conversion is applied")
 	}
 }
